@@ -333,6 +333,9 @@ func (p *queryPlan) processClause(ctx context.Context, cls *semantic.GraphClause
 		if err != nil {
 			return false, err
 		}
+		if !inTimeBounds(cls.P, lo) {
+			return true, nil
+		}
 		b, _, err := simpleExist(ctx, p.grfs, cls, t, p.tracer)
 		return b, err
 	}
